@@ -48,7 +48,8 @@ pub enum Case {
     /// (bits 1:0: 0 rewrite in place, 1 remove then create, 2 write a temporary file and rename it
     /// over, 3 truncate then write in two steps) and what else happens in the folder just before
     /// (bit 2: another file is created, bit 3: another file is removed, bit 4: another .asm file
-    /// is written); absent entries mean 0
+    /// is written); bit 5: the file keeps the modification time it had before (what `cp -p`,
+    /// `rsync -t` or unpacking an archive do); absent entries mean 0
     Watch {
         contents: Vec<String>,
         #[serde(default)]
@@ -414,6 +415,9 @@ fn judge_watch(contents: &[String], events: &[u8]) -> Obs {
         }
         let mark_out = read_file(&out_path).len();
         let mark_err = read_file(&err_path).len();
+        let old_meta = std::fs::metadata(&target).ok();
+        let old_mtime = old_meta.as_ref().and_then(|m| m.modified().ok());
+        let old_len = old_meta.as_ref().map(|m| m.len());
         match ev & 3 {
             0 => std::fs::write(&target, content).unwrap(),
             1 => {
@@ -433,6 +437,12 @@ fn judge_watch(contents: &[String], events: &[u8]) -> Obs {
                 let _ = f.write_all(content[..half].as_bytes());
                 let _ = f.flush();
                 let _ = f.write_all(content[half..].as_bytes());
+            }
+        }
+        if ev & 0x20 != 0 {
+            if let (Some(t), Ok(f)) = (old_mtime, std::fs::File::options().write(true).open(&target)) {
+                let _ = f.set_modified(t);
+                obs.label(if old_len == Some(content.len() as u64) { "watch-same-length-same-modification-time" } else { "watch-modification-time-preserved" });
             }
         }
         // expected verdict: what `lace check` says about the same content
@@ -536,6 +546,9 @@ fn watch_pool() -> Vec<String> {
         "ld r0 loop\nst r0 next\nhalt\n".into(),
         "msg halt\nfar br msg\nnext .fill x0\n".into(),
         "$$$\nstart halt\n".into(),
+        // two versions of equal length, one broken
+        "start ld r0 VALUF\nhalt\nVALUE .fill x1\n".into(),
+        "start ld r0 VALUE\nhalt\nVALUE .fill x1\n".into(),
     ]
 }
 
@@ -552,15 +565,27 @@ fn generated_watch(seed: u64, k: u64) -> Case {
     let mut contents = Vec::new();
     let mut events = Vec::new();
     let mut prev_broken = false;
+    let mut prev_pick = 0usize;
     for _ in 0..n {
-        let pick = (next() % pool.len() as u64) as usize;
+        let mut pick = (next() % pool.len() as u64) as usize;
+        // the equal-length pair tends to come together
+        if prev_pick >= 10 && next() % 2 == 0 {
+            pick = 21 - prev_pick;
+        }
         contents.push(pool[pick].clone());
-        let how = [0u8, 0, 1, 2, 3][(next() % 5) as usize];
+        let mut how = [0u8, 0, 1, 2, 3][(next() % 5) as usize];
+        // a version of the same length as the one before often keeps its modification time too
+        if pick >= 10 && prev_pick >= 10 && next() % 3 != 0 {
+            how = [0u8, 3][(next() % 2) as usize] | 0x20;
+        } else if next() % 8 == 0 {
+            how |= 0x20;
+        }
         // right after a version that failed (labels may have been recorded) sibling files change
         // more often: the re-check those events cause sees the broken version once more
         let side = if prev_broken { [8u8, 8, 12, 4, 16, 0][(next() % 6) as usize] } else { [0u8, 0, 0, 4, 8, 8, 16, 12][(next() % 8) as usize] };
         events.push(how | side);
-        prev_broken = matches!(pick, 2..=7 | 9);
+        prev_broken = matches!(pick, 2..=7 | 9 | 10);
+        prev_pick = pick;
     }
     Case::Watch { contents, events }
 }
@@ -624,7 +649,7 @@ impl Prop for C07 {
     fn rule(&self) -> &'static str {
         "ProgGen sources, valid and with one injected error of every class (lexical, operand kind, literal range, duplicate label, undefined label, repeated .orig, and a label out of reach at ANY statement position for every PC-relative form BR/BRz/LD/LDI/LEA/ST/STI/JSR/CALL - the only class that surfaces when words are emitted; paddings barely / comfortably / far beyond the reach, and backward references in programs whose total size sits exactly at the reach of the field), valid programs whose image ends within 2 words of the top of memory, files that are not UTF-8 (a Latin-1 byte, truncated or invalid sequences - in a comment, a string literal, a label or as a token), files that begin with, contain at a line start or end with one of 26 stream signatures (byte order marks, `#!`, escape introducers, CR LF, end-of-input controls, blank look-alikes), 20 kinds of file name, with and without stack mnemonics, with and without `--features stack`, through the real binary: `lace check f.asm`, `lace compile f.asm out.lc3 [flags]`, `lace run f.asm [flags]` and the bare `lace f.asm [flags]` (flag spelled `-f stack`, `--features stack` or `--features=stack`). \
          Oracle: compile and run (same flags) agree on whether the source assembles (run reaches 'Running emitted binary' iff compile exits 0); compile rejects => run and (default setting) check report an error, where a crash (status 101 / signal / panic message) never counts as a report; check succeeds => compile succeeds; check never crashes. \
-         `lace watch`: five fixed scenarios of 3-7 plain rewrites (same labelled source twice, failures half-way then valid again, stack mnemonics, and two in which versions with 3,700 / 9,000 / 40,000 labels are followed by small versions that redefine or wrongly use those names) and 16 (quick) / 80 (thorough) generated ones - 4-7 contents from a pool of ten sources that share label names (valid, failing in the lexer, parser, at backpatch, at emission, on a duplicate label), each saved by rewriting in place, remove-then-create, rename-over or a two-step write, optionally after another file of the folder was created, removed or written: after each debounced re-check the verdict printed (Success / diagnostic / crash) must equal `lace check` on the same content; a scenario that yields no verdict within 15 s is recorded as inconclusive and not asserted. \
+         `lace watch`: five fixed scenarios of 3-7 plain rewrites (same labelled source twice, failures half-way then valid again, stack mnemonics, and two in which versions with 3,700 / 9,000 / 40,000 labels are followed by small versions that redefine or wrongly use those names) and 16 (quick) / 80 (thorough) generated ones - 4-7 contents from a pool of ten sources that share label names (valid, failing in the lexer, parser, at backpatch, at emission, on a duplicate label), each saved by rewriting in place, remove-then-create, rename-over or a two-step write, optionally after another file of the folder was created, removed or written, optionally keeping the file's previous modification time (one fixed scenario alternates two versions of equal length that way): after each debounced re-check the verdict printed (Success / diagnostic / crash) must equal `lace check` on the same content; a scenario that yields no verdict within 15 s is recorded as inconclusive and not asserted. \
          Non-trivial: the only error is an emission-time one, or the source uses a stack mnemonic, or a watch scenario. Distinct = hash(source, flag)."
     }
     fn assumptions(&self) -> Vec<String> {
@@ -646,6 +671,12 @@ impl Prop for C07 {
             if ctx.worker == i % ctx.nworkers {
                 judge_one(ctx, rep, &Case::Watch { contents: sc, events: vec![] }, &mut |c| judge_case(c));
             }
+        }
+        // versions of equal length that keep the file's modification time (`cp -p`, `rsync -t`)
+        if ctx.worker == 5 % ctx.nworkers {
+            let pool = watch_pool();
+            let (broken, valid) = (pool[10].clone(), pool[11].clone());
+            judge_one(ctx, rep, &Case::Watch { contents: vec![valid.clone(), broken.clone(), valid.clone(), broken, valid], events: vec![0, 0x20, 0x20, 0x23, 0x20] }, &mut |c| judge_case(c));
         }
         // generated scenarios: every worker runs its own (they take 10-20 s each)
         for round in 0..ctx.tier.pick(1u64, 5) {
